@@ -884,10 +884,15 @@ structure MhabIn where
   /-- `true` (default, what the driver uses) = /repo after commit 639f07c: every matched bias is 1-D of its
       projection's hidden size.  `false` = the rule before that commit (finding C19-F12), kept for `…_prefix_refuted`. -/
   fix12 : Bool := true
+  /-- the source MHA node already has a packed `bias` input (index 3) -/
+  bias0 : Bool := false
+  /-- `true` (default, what the driver uses) = /repo after commit a202620: `FuseMHAScale.check` fails when the node has
+      a bias input.  `false` = the rule before that commit (finding C19-F16), kept for `…_prefix_refuted`. -/
+  fix16 : Bool := true
 
 def mhab (i : MhabIn) : String :=
-  -- fuse_mha_scale: the Mul's second operand must be a one-element numeric constant
-  let c1 := i.pre.isSome && i.preConst
+  -- fuse_mha_scale: the Mul's second operand must be a one-element numeric constant; the node must have no bias input
+  let c1 := i.pre.isSome && i.preConst && !(i.fix16 && i.bias0)
   let scale1 : Option Float :=
     if c1 then
       match i.pre, dimAt i.qm 2 with
@@ -917,7 +922,7 @@ def mhab (i : MhabIn) : String :=
              | some [.int n], some d => n == d
              | _, _ => false)
   let okBias :=
-    (hq || hk || hv) && (i.dt == 1 || i.dt == 10) &&
+    !i.bias0 && (hq || hk || hv) && (i.dt == 1 || i.dt == 10) &&
     (match checkShape [] qsh ["B", "S", "D"] with
      | none => false
      | some b1 => match checkShape b1 ksh ["B", "Skv", "Dk"] with
